@@ -1,9 +1,8 @@
 SPECIFICATION Spec
 CONSTANTS
   Threads = {1, 2}
-  Locks = {1, 2}
+  Locks = {1}
   Cells = {1}
-  MaxSteps = 10
-  Recursive = FALSE
-INVARIANTS Complete
+  MaxSteps = 8
+INVARIANTS Transfer
 CHECK_DEADLOCK FALSE
